@@ -89,13 +89,18 @@ func buildTree(st *memory.Storage, files map[string]fent, prefix string, out map
 func main() {
 	seed, _ := strconv.ParseInt(os.Args[1], 10, 64)
 	count, _ := strconv.Atoi(os.Args[2])
-	ops, _ := os.Create(os.Args[3])
-	impl, _ := os.Create(os.Args[4])
+	// extra argument "bc": the ops/impl files receive the blob-cache stream, otherwise the tree-diff stream
+	tdo, tdi, bco, bci := os.Args[3], os.Args[4], os.DevNull, os.DevNull
+	if len(os.Args) > 5 && os.Args[5] == "bc" {
+		tdo, tdi, bco, bci = os.DevNull, os.DevNull, os.Args[3], os.Args[4]
+	}
+	ops, _ := os.Create(tdo)
+	impl, _ := os.Create(tdi)
 	wo, wi := bufio.NewWriter(ops), bufio.NewWriter(impl)
 	defer wo.Flush()
 	defer wi.Flush()
-	bops, _ := os.Create(os.Args[5])
-	bimpl, _ := os.Create(os.Args[6])
+	bops, _ := os.Create(bco)
+	bimpl, _ := os.Create(bci)
 	bo, bi := bufio.NewWriter(bops), bufio.NewWriter(bimpl)
 	defer bo.Flush()
 	defer bi.Flush()
